@@ -29,7 +29,7 @@ Proof. vm_compute. repeat split. Qed.
 
 (* (2) execute_head without the second disjunct: status 3 is also the failed roll-back, where
    no state is published. *)
-Definition cx_w0 : world := mkWorld cx_objs 2 None [] [3%N] true 2.
+Definition cx_w0 : world := mkWorld cx_objs 2 None [] [3%N] true 2 true.
 Definition cx_t1 : txn :=
   mkTxn (mkState None 2 [] [] [] []) 2 2 (mkOpts CDisallow true false true true false)
         [] [] [] [] None None [7%N] cx_objs None [] [3%N] true.
